@@ -442,12 +442,14 @@ class TemperatureServiceData(ServiceData):
     @property  # type: ignore[override]
     def data(self) -> float:
         """This attribute is a `float` value."""
-        return struct.unpack("<i", self._data[:3] + b"\0")[0] * 10**-2
+        # the mantissa is a signed 24-bit integer: extend its sign into the 4th byte
+        sign = b"\xff" if len(self._data) > 2 and self._data[2] & 0x80 else b"\0"
+        return struct.unpack("<i", self._data[:3] + sign)[0] * 10**-2
 
     @data.setter
     def data(self, value: Union[float, bytes, bytearray]):
         if isinstance(value, float):
-            value = struct.pack("<i", int(value * 100) & 0xFFFFFF)
+            value = struct.pack("<i", int(round(value * 100)) & 0xFFFFFF)
             self._data = value[:3] + bytes([0xFE])
         elif isinstance(value, (bytes, bytearray)):
             self._data = value
